@@ -587,6 +587,38 @@ def cis_ends_with_its_acl(who: int, stage: int, reason: int) -> bool:
         return len(_disconnected(sink, cis[0])) == 1 and len(_disconnected(psink, pcis)) == 1
 
 
+@harness(pre=['0 <= proc <= 1 and 0 <= a0 <= 3 and 0 <= allow <= 1'], family='procedures', twin=True, timeout=(90, 300),
+         kernels=K_CTL + ('bumble.controller.Controller.on_hci_create_connection_command', 'bumble.controller.Controller.on_hci_remote_name_request_command',
+                          'bumble.controller.Controller.send_lmp_packet', 'bumble.link.LocalLink.send_lmp_packet'),
+         bounds='BR/EDR Create Connection / Remote Name Request towards an address no controller on the link owns (four absent addresses, one of them differing from the address of the present peer in a single byte): one Command Status, no exception out of the controller, and when the status is PENDING/SUCCESS the procedure is concluded by one Connection Complete / Remote Name Request Complete with an error status; a later Create Connection towards the present peer is still accepted')
+def classic_absent_peer_concludes(proc: int, a0: int, allow: int) -> bool:
+    proc, a0, allow = C(proc, 0, 1), C(a0, 0, 3), C(allow, 0, 1)
+    with detloop.running() as loop:
+        with untraced():
+            c, peer, sink = fresh_controller(loop)
+        absent = hci.Address(bytes(peer.public_address)[:5] + _B(0xD1), hci.AddressType.PUBLIC_DEVICE) if a0 == 3 else hci.Address(_B(a0, 0xE1, 0xE2, 0xE3, 0xE4, 0xE5), hci.AddressType.PUBLIC_DEVICE)
+        if proc == 0:
+            cmd, done_cls = hci.HCI_Create_Connection_Command(bd_addr=absent, packet_type=0xCC18, page_scan_repetition_mode=1, reserved=0, clock_offset=0, allow_role_switch=allow), hci.HCI_Connection_Complete_Event
+        else:
+            cmd, done_cls = hci.HCI_Remote_Name_Request_Command(bd_addr=absent, page_scan_repetition_mode=1, reserved=0, clock_offset=0), hci.HCI_Remote_Name_Request_Complete_Event
+        try:
+            c.on_hci_command_packet(cmd)
+        except Exception:
+            return False
+        _settle(loop)
+        r = replies(sink)
+        if len(r) != 1 or r[0][0] != 'cs' or r[0][1] != cmd.op_code:
+            return False
+        if _cs_status(sink) == 0:
+            done = _events(sink, done_cls)
+            if len(done) != 1 or done[0].status == 0:
+                return False
+        with untraced():
+            c.on_hci_command_packet(hci.HCI_Create_Connection_Command(bd_addr=peer.public_address, packet_type=0xCC18, page_scan_repetition_mode=1, reserved=0, clock_offset=0, allow_role_switch=1))
+            _settle(loop)
+            return _cs_status(sink) == 0 and len(_events(peer.host, hci.HCI_Connection_Request_Event)) == 1
+
+
 def conditions():
     out = registered(__name__)
     out += gencodec.conditions(['hcicmd'], timeout=(40.0, 120.0), oracle=reply_once, prefix='reply_', family='controller-reply-once', kernels=K_CTL,
